@@ -690,7 +690,7 @@ def gen_invalid(rng):
     for _ in range(50):
         cfg = gen_config(rng, with_fleet=True) if rng.random() < 0.7 else gen_config_sc(rng)
         kind = rng.choice(["bad_const_index", "bad_policy", "negative_delay", "cap_zero", "bad_mode", "nonblocking_zero_interarrival",
-                           "bad_stream_index", "bad_stream_index"])
+                           "bad_stream_index", "bad_stream_index", "isolated_node", "bad_in_index", "edge_negative_delay"])
         cfg["valid"] = False
         cfg["expect_reject"] = kind
         cand = [i for i, n in enumerate(cfg["nodes"]) if n["kind"] in ("source", "machine")]
@@ -710,6 +710,39 @@ def gen_invalid(rng):
             cfg["fault_after"] = len(good)
             if n["style"] == "const":
                 n["style"] = "callable"
+        elif kind == "isolated_node":
+            # a node without the edges it needs: a further source / machine / sink that is connected to nothing
+            k = rng.choice(["source", "machine", "sink"])
+            proto = dict(next(n for n in cfg["nodes"] if n["kind"] == ("source" if k == "source" else "machine" if k == "machine" and
+                                                                      any(m["kind"] == "machine" for m in cfg["nodes"]) else n["kind"])))
+            proto.update(kind=k, ins=[], outs=[], insel=("FA",), outsel=("FA",), setup=0, blocking=True)
+            if k != "source":
+                proto["delays"] = [1]
+            proto.pop("recipe", None); proto.pop("pallet", None); proto.pop("slow", None)
+            cfg["nodes"].append(proto)
+            cfg["fault_node"] = len(cfg["nodes"]) - 1
+            cfg["order"].insert(rng.randrange(len(cfg["order"]) + 1), "N%d" % cfg["fault_node"])
+            cfg["model_skip"] = True
+        elif kind == "bad_in_index":
+            ms = [i for i, n in enumerate(cfg["nodes"]) if n["kind"] == "machine"]
+            if not ms:
+                continue
+            i = rng.choice(ms)
+            n = cfg["nodes"][i]
+            cfg["fault_node"] = i
+            n["insel"] = ("C", rng.choice([len(n["ins"]), len(n["ins"]) + 1, -1]))
+        elif kind == "edge_negative_delay":
+            b = [i for i, e in enumerate(cfg["edges"]) if e["kind"] == "buffer"]
+            if not b:
+                continue
+            i = rng.choice(b)
+            e = cfg["edges"][i]
+            cfg["fault_edge"] = i
+            if rng.random() < 0.5:
+                e["style"], e["delays"], cfg["fault_after"] = "const", [-1], 0
+            else:
+                e["style"], e["delays"], cfg["fault_after"] = rng.choice(["callable", "generator"]), [1, -2], 1
+            cfg["model_skip"] = True
         elif kind == "bad_policy":
             cfg["fault_node"] = rng.choice(cand)
             cfg["nodes"][cfg["fault_node"]]["outsel"] = ("BAD",)
